@@ -107,35 +107,23 @@ PROPS = {
         tstep=["T_C18_NoAbnormalAbort"],
     ),
     "C09": dict(
-        family="eco", level="exploration",
-        mc=[],
-        inv=[], step=[],
-        tinv=["T_C09_RoundTrip"], tstep=["T_C09_SameState"],
-        observers="export",
+        family="eco", level="exploration", mc=[],
+        parts=[
+            dict(family="eco", mc=[], inv=[], step=[], tinv=["T_C09_RoundTrip"], tstep=["T_C09_SameState"], observers="export"),
+            dict(family="data", mc_module="MC_Data", trace_module="TraceData", mc=[], inv=[], step=[],
+                 tinv=["T_C09_RoundTrip"], tstep=["T_C09_SameState"], observers="export",
+                 gen=[("data_inj_q", 16, 20), ("data_buckets_q", 8, 20)], gen_t=[("data_inj_q", 100, 25), ("data_buckets_q", 60, 25)]),
+        ],
     ),
     "C10": dict(
-        family="eco", level="exploration",
-        mc=[],
-        inv=[], step=[],
-        tinv=["T_C10_SameDigests"], tstep=["T_C10_FailedLeavesNoTrace", "T_C10_RestartInvisible"],
-        observers="replica",
-    ),
-    "C15": dict(family="iri", mc=[], inv=[], step=[], tinv=[]),
-    "C16": dict(
-        family="data", mc_module="MC_Data", trace_module="TraceData",
-        mc=[("data_q", 300), ("data_buckets_q", 300), ("data_equal_q", 300)],
-        inv=["C16_IdInjective", "C16_RowsReferToIds"],
-        step=["C16_Stable", "C16_FirstTime", "C16_Responses", "C16_ManagerOnly", "C16_Footprint"],
-        tinv=[],
-        gen=[("data_q", 24, 25), ("data_buckets_q", 24, 25), ("data_equal_q", 16, 25), ("data_inj_q", 16, 25)],
-        gen_t=[("data_q", 200, 30), ("data_buckets_q", 200, 30), ("data_equal_q", 100, 30), ("data_inj_q", 100, 30)],
-    ),
-    "C17": dict(
-        family="eco",
-        mc=[],
-        inv=[], step=[],
-        tinv=["T_C17_Lists", "T_C17_Singles"],
-        observers="query",
+        family="eco", level="exploration", mc=[],
+        parts=[
+            dict(family="eco", mc=[], inv=[], step=[], tinv=["T_C10_SameDigests"],
+                 tstep=["T_C10_FailedLeavesNoTrace", "T_C10_RestartInvisible"], observers="replica"),
+            dict(family="data", mc_module="MC_Data", trace_module="TraceData", mc=[], inv=[], step=[],
+                 tinv=["T_C10_SameDigests"], tstep=["T_C10_FailedLeavesNoTrace"], observers="replica",
+                 gen=[("data_inj_q", 16, 20), ("data_buckets_q", 8, 20)], gen_t=[("data_inj_q", 100, 25), ("data_buckets_q", 60, 25)]),
+        ],
     ),
     "C04": dict(
         family="eco",
